@@ -49,12 +49,22 @@ type Manager struct {
 	// started with, if it has changed the shared caches may be ahead of the
 	// storage snapshot the transaction is reading from.
 	generation atomic.Uint64
+	/* The names of the caches that write transactions are working on, from
+	 * the moment a writer asks for the cache until its transaction is
+	 * committed or aborted, with the number of such transactions. Meanwhile
+	 * the cache the writer uses is not necessarily the one found under that
+	 * name: it can leave the manager (size limit) while the writer waits for
+	 * it or holds it, and the storage commit comes before the cache commit.
+	 * A reader that built, published or reused a shared cache of that name
+	 * in these windows would leave behind a cache that lacks the write. */
+	writing map[string]int
 }
 
 func NewManager(maxSize int64) *Manager {
 	return &Manager{
 		sharedCaches: make(map[string]*sharedCacheElem),
 		maxSize:      maxSize,
+		writing:      make(map[string]int),
 	}
 }
 
@@ -127,7 +137,9 @@ type Transaction struct {
 	 * the name because a cache can be evicted from the manager and replaced
 	 * by a new one with the same name while we hold the old one. */
 	writtenCaches map[*sharedCacheElem]string
-	mu            sync.Mutex
+	// The names this transaction has asked for as a writer, see Manager.writing
+	writingNames map[string]struct{}
+	mu           sync.Mutex
 	/* Serialises the goroutines of this transaction while one of them waits
 	 * for the write lock of a shared cache. It is not the same mutex as mu:
 	 * mu is also taken under the manager lock (when a new cache is recorded),
@@ -146,6 +158,7 @@ type Transaction struct {
 func (m *Manager) NewTransaction() *Transaction {
 	return &Transaction{
 		writtenCaches:   make(map[*sharedCacheElem]string),
+		writingNames:    make(map[string]struct{}),
 		manager:         m,
 		startGeneration: m.generation.Load(),
 	}
@@ -196,6 +209,20 @@ func (t *Transaction) With(name string, readOnly bool, createFn func() (Cachable
 	}
 	// We start with manager lock so others don't try to create the same cache
 	t.manager.mu.Lock()
+	t.mu.Lock()
+	_, isWriterOfName := t.writingNames[name]
+	if !readOnly && !isWriterOfName {
+		t.writingNames[name] = struct{}{}
+		t.manager.writing[name]++
+	}
+	t.mu.Unlock()
+	if readOnly && !isWriterOfName && t.manager.writing[name] > 0 {
+		// Someone else is writing to the index behind this cache, we keep
+		// away from anything shared under this name.
+		t.manager.mu.Unlock()
+		log.Debug().Str("name", name).Msg("A write is in flight on this cache, using cold cache")
+		return t.withColdCache(createFn, f)
+	}
 	if existingCache, ok := t.manager.sharedCaches[name]; ok {
 		existingCache.lastAccessed = time.Now()
 		t.manager.mu.Unlock()
@@ -383,11 +410,21 @@ func (t *Transaction) With(name string, readOnly bool, createFn func() (Cachable
 func (t *Transaction) Commit(fail bool) {
 	t.mu.Lock()
 	defer t.mu.Unlock()
-	if len(t.writtenCaches) == 0 {
+	if len(t.writtenCaches) == 0 && len(t.writingNames) == 0 {
 		return
 	}
 	t.manager.mu.Lock()
 	defer t.manager.mu.Unlock()
+	defer func() {
+		// Readers may share the caches of these names again, after the
+		// generation has moved on and the caches are released.
+		for name := range t.writingNames {
+			if t.manager.writing[name]--; t.manager.writing[name] <= 0 {
+				delete(t.manager.writing, name)
+			}
+		}
+		clear(t.writingNames)
+	}()
 	// From now on the shared caches are ahead of any older storage snapshot
 	t.manager.generation.Add(1)
 	failed := t.failed.Load() || fail
